@@ -101,8 +101,8 @@ Print Assumptions C04_start_offsets.
    C04_core_mapping, given the interface theorems of the embedded BitVector (C01) and IntVector (C05) *)
 Theorem C04_from_vec : forall sp m V wm,
   Forall (fun x => x < 2 ^ 64) V -> lenN V < 2 ^ 64 -> list_max V + 1 < 2 ^ 64 ->
-  (forall col r b, lenB col < 2 ^ 64 -> bv_from_bits col = Ok r -> bv_enable_all sp m r = Ok b -> bv_queries_ok sp m b col) ->
-  (forall F iv first, Forall (fun x => x < 2 ^ 64) F -> lenN F < 2 ^ 64 ->
+  (forall col r b, lenB col = lenN V -> bv_from_bits col = Ok r -> bv_enable_all sp m r = Ok b -> bv_queries_ok sp m b col) ->
+  (forall F iv first, Forall (fun x => x <= lenN V) F -> lenN F = list_max V + 1 ->
      iv_from 64 F = Ok iv -> iv_pack iv = Ok first -> first_ok first F) ->
   wm_from sp m V = Ok wm ->
   exists levels first F,
@@ -111,6 +111,20 @@ Theorem C04_from_vec : forall sp m V wm,
     first_offsets m V (lenN V) (list_max V) = Ok F /\ first_ok first F.
 Proof. exact wm_from_establishes. Qed.
 Print Assumptions C04_from_vec.
+
+(* the same, including that construction returns: with the existence form of the two interfaces *)
+Theorem C04_from_vec_total : forall sp m V,
+  Forall (fun x => x < 2 ^ 64) V -> lenN V < 2 ^ 64 -> list_max V + 1 < 2 ^ 64 ->
+  (forall col, lenB col = lenN V ->
+     exists r b, bv_from_bits col = Ok r /\ bv_enable_all sp m r = Ok b /\ bv_queries_ok sp m b col) ->
+  (forall F, Forall (fun x => x <= lenN V) F -> lenN F = list_max V + 1 ->
+     exists iv first, iv_from 64 F = Ok iv /\ iv_pack iv = Ok first /\ first_ok first F) ->
+  exists levels first F,
+    wm_from sp m V = Ok (mkwm (lenN V) (mkcore levels) first) /\
+    Forall2 (bv_queries_ok sp m) levels (wm_columns V) /\
+    first_offsets m V (lenN V) (list_max V) = Ok F /\ first_ok first F.
+Proof. exact wm_from_total. Qed.
+Print Assumptions C04_from_vec_total.
 
 (* ---- non-vacuity: the vector of the crate's documentation, built by the model (every level gets its
    rank and both select supports), answers as the statements say; its ideal columns and offsets *)
